@@ -777,3 +777,122 @@ Proof.
   intros HT Hops. revert C. unfold run. induction Hops as [|o ops [Ho Hs] _ IH]; intros C Hw; simpl; [done|].
   apply IH. by apply step_inv_nofill.
 Qed.
+(* ================================================================ a rejected add_blackbox leaves no trace *)
+Lemma add_g_nil c n t :
+  add_g c n t [] [] af_default =
+    if bool_decide (n ∈ dom c) then (c, Fail ValueError, n) else
+    if negb (bool_decide (t ∈ supported_types)) then (c, Fail ValueError, n) else
+    if bool_decide (n = "") then (c, Fail ValueError, n) else
+    if starts_digit n then (c, Fail ValueError, n) else (<[n := mk_node t false (fanin c n)]> c, Done, n).
+Proof.
+  unfold add_g. simpl. rewrite andb_true_r. destruct (bool_decide (n ∈ dom c)); [done|].
+  destruct (negb (bool_decide (t ∈ supported_types))); [done|]. simpl.
+  destruct (bool_decide (n = "")); [done|]. destruct (starts_digit n); [done|]. done.
+Qed.
+
+(* state of the two loops: g differs from c only by fresh nodes `io` and by wires from/to them *)
+Definition bb_rel (c g : circuit) (io : list string) : Prop :=
+  (∀ m, m ∈ io → m ∉ dom c) ∧
+  (∀ m, m ∉ io → (n_ty <$> g !! m) = (n_ty <$> c !! m) ∧ (n_out <$> g !! m) = (n_out <$> c !! m) ∧ fanin g m ∖ list_to_set io = fanin c m).
+Lemma bb_rel_remove c g io : bb_rel c g io → ∀ m, fanin (remove_g g io) m = fanin c m.
+Proof.
+  intros [Hf Hr] m. unfold fanin at 1. rewrite remove_lookup. destruct (decide (m ∈ (list_to_set io : gset string))) as [Hin|Hin].
+  - simpl. apply elem_of_list_to_set in Hin. specialize (Hf m Hin). unfold fanin. by rewrite (not_elem_of_dom_1 _ _ Hf).
+  - rewrite elem_of_list_to_set in Hin. destruct (Hr m Hin) as (_ & _ & <-). unfold fanin. destruct (g !! m); simpl; set_solver.
+Qed.
+Lemma bb_rel_remove_eq c g io : bb_rel c g io → remove_g g io = c.
+Proof.
+  intros [Hf Hr]. apply map_eq. intros m. rewrite remove_lookup. destruct (decide (m ∈ (list_to_set io : gset string))) as [Hin|Hin].
+  - apply elem_of_list_to_set in Hin. specialize (Hf m Hin). by rewrite (not_elem_of_dom_1 _ _ Hf).
+  - rewrite elem_of_list_to_set in Hin. destruct (Hr m Hin) as (Ht & Ho & Hfi). unfold fanin in Hfi.
+    destruct (g !! m) as [[t o fi]|], (c !! m) as [[t' o' fi']|]; simpl in *; try done.
+    injection Ht as <-. injection Ho as <-. subst fi'. done.
+Qed.
+
+Section add_blackbox_reject.
+  Context (c : circuit) (inst : string) (Hc : closed c).
+  Let P (st : circuit * list string * outcome) : Prop := bb_rel c st.1.1 st.1.2 ∧ (st.2 = Done ∨ st.2 = Fail ValueError).
+  Let f := (λ (st : circuit * list string * outcome) (pt : string * gtype), match st with
+                  | (g, io, Done) => let '(g', o, nm) := add_g g (pin inst pt.1) pt.2 [] [] af_default in
+                                     (g', match o with Done => nm :: io | _ => io end, o)
+                  | _ => st end).
+  Lemma mkpins_step st pt : P st → P (f st pt) ∧ (∀ x, x ∈ st.1.2 → x ∈ (f st pt).1.2) ∧ ((f st pt).2 = Done → pin inst pt.1 ∈ (f st pt).1.2).
+  Proof.
+    destruct st as [[g io] o], pt as [p t]. unfold P, f. simpl. intros [[Hf Hr] Ho]. destruct o as [|e].
+    2:{ split; [done|]. split; [done|]. intros [=]. }
+    rewrite add_g_nil. set (n := pin inst p).
+    destruct (bool_decide (n ∈ dom g)) eqn:En; [simpl; split; [split; [done|by right]|split; done]|].
+    repeat (match goal with |- context [if ?b then (g, Fail ValueError, n) else _] => destruct b; [simpl; split; [split; [done|by right]|split; done]|] end).
+    apply bool_decide_eq_false in En. simpl.
+    assert (Hnc : n ∉ dom c).
+    { destruct (decide (n ∈ io)) as [Hin|Hin]; [by apply Hf|]. destruct (Hr n Hin) as (Ht & _).
+      rewrite (not_elem_of_dom_1 _ _ En) in Ht. intros [x Hx]%elem_of_dom. rewrite Hx in Ht. done. }
+    split; [|split; [set_solver|intros _; set_solver]]. split; [|by left]. split.
+    - intros m [->|Hm]%elem_of_cons; [done|by apply Hf].
+    - intros m Hm. apply not_elem_of_cons in Hm as [Hne Hm]. destruct (Hr m Hm) as (Ht & Hou & Hfi).
+      assert (Hfg : fanin (<[n:=mk_node t false (fanin g n)]> g) m = fanin g m) by (unfold fanin; by rewrite lookup_insert_ne).
+      rewrite lookup_insert_ne by done. split; [done|]. split; [done|]. rewrite Hfg.
+      assert (n ∉ fanin c m).
+      { intros (i & Hi & Hin)%elem_of_fanin. apply Hnc. eauto. }
+      rewrite <- Hfi in H |- *. set_solver.
+  Qed.
+  Lemma mkpins_spec l st : P st →
+    P (foldl f st l) ∧ (∀ x, x ∈ st.1.2 → x ∈ (foldl f st l).1.2) ∧ ((foldl f st l).2 = Done → ∀ pt, pt ∈ l → pin inst pt.1 ∈ (foldl f st l).1.2).
+  Proof.
+    revert st. induction l as [|pt l IH]; intros st HP; simpl.
+    - split; [done|]. split; [done|]. intros _ pt Hpt. by apply elem_of_nil in Hpt.
+    - destruct (mkpins_step st pt HP) as (HP' & Hmono & Hpin). destruct (IH _ HP') as (HP'' & Hmono' & Hpins).
+      split; [done|]. split; [eauto|]. intros Hd pt' [->|Hin]%elem_of_cons; [|by apply Hpins].
+      apply Hmono', Hpin. (* the loop only stays Done if every step was Done *)
+      clear -Hd. revert Hd. generalize (f st pt). clear. induction l as [|q l IH]; simpl; [done|]. intros st Hd.
+      specialize (IH _ Hd). destruct st as [[g io] [|e]]; [done|]. simpl in IH. done.
+  Qed.
+End add_blackbox_reject.
+
+Lemma conns_step c g io d inst (kv : string * list string) :
+  bb_rel c g io → (∀ k, k ∈ bb_in d ∪ bb_out d → pin inst k ∈ io) →
+  let r := if bool_decide (kv.1 ∈ bb_in d) then connect_g g kv.2 [pin inst kv.1]
+           else if bool_decide (kv.1 ∈ bb_out d) then connect_g g [pin inst kv.1] kv.2 else (g, Fail ValueError) in
+  bb_rel c r.1 io ∧ (r.2 = Done ∨ r.2 = Fail ValueError).
+Proof.
+  intros [Hf Hr] Hio. destruct kv as [k vs]. simpl.
+  assert (Hgen : ∀ us ws, (∀ m, m ∉ io → m ∈ ws → list_to_set us ⊆ (list_to_set io : gset string)) →
+            bb_rel c (connect_g g us ws).1 io ∧ ((connect_g g us ws).2 = Done ∨ (connect_g g us ws).2 = Fail ValueError)).
+  { intros us ws Hside. destruct (connect_g g us ws).2 eqn:E.
+    - split; [|by left]. split; [done|]. intros m Hm. destruct (Hr m Hm) as (Ht & Ho & Hfi).
+      unfold fanin. rewrite (connect_g_lookup _ _ _ _ E). unfold fanin in Hfi.
+      destruct (g !! m) as [i|]; simpl in *; [|done]. split; [done|]. split; [done|]. rewrite <- Hfi.
+      destruct (decide (m ∈ ws)) as [Hw|]; [|set_solver]. specialize (Hside m Hm Hw). set_solver.
+    - apply connect_g_fail in E as [-> ->]. split; [done|by right]. }
+  destruct (bool_decide (k ∈ bb_in d)) eqn:E1.
+  - apply bool_decide_eq_true in E1. apply Hgen. intros m Hm ->%elem_of_list_singleton. exfalso. apply Hm, Hio. set_solver.
+  - destruct (bool_decide (k ∈ bb_out d)) eqn:E2; [|simpl; split; [done|by right]].
+    apply bool_decide_eq_true in E2. apply Hgen. intros m _ _ x. rewrite !elem_of_list_to_set. intros ->%elem_of_list_singleton.
+    apply Hio. set_solver.
+Qed.
+
+(* a rejected add_blackbox raises ValueError and leaves the circuit exactly as it was *)
+Lemma add_blackbox_reject C d inst ins outs conns e :
+  closed (c_g C) → list_to_set ins = bb_in d → list_to_set outs = bb_out d →
+  (add_blackbox C d inst ins outs conns).2 = Fail e → e = ValueError ∧ (add_blackbox C d inst ins outs conns).1 = C.
+Proof.
+  intros Hc Hins Houts. unfold add_blackbox. destruct (bool_decide (inst ∈ dom (c_bbs C))); [simpl; by intros [= <-]|]. cbv zeta.
+  set (F := foldl _ (_, [], Done) _).
+  assert (HP0 : bb_rel (c_g C) (c_g C, @nil string, Done).1.1 (c_g C, @nil string, Done).1.2 ∧ ((c_g C, @nil string, Done).2 = Done ∨ (c_g C, @nil string, Done).2 = Fail ValueError)).
+  { simpl. split; [|by left]. split; [intros m Hm; by apply elem_of_nil in Hm|]. intros m _. split; [done|]. split; [done|]. simpl. set_solver. }
+  pose proof (mkpins_spec (c_g C) inst Hc (((λ p, (p, BbIn)) <$> ins) ++ ((λ p, (p, BbOut)) <$> outs)) (c_g C, [], Done) HP0) as Hspec.
+  change (foldl _ (c_g C, [], Done) _) with F in Hspec. destruct Hspec as ([Hrel Ho] & _ & Hpins).
+  destruct F as [[g io] o]. simpl in *. cbv beta iota.
+  destruct o as [|e0].
+  2:{ destruct Ho as [|[= ->]]; [done|]. simpl. intros [= <-]. split; [done|]. rewrite (bb_rel_remove_eq _ _ _ Hrel). by destruct C. }
+  assert (Hio : ∀ k, k ∈ bb_in d ∪ bb_out d → pin inst k ∈ io).
+  { intros k Hk. rewrite <- Hins, <- Houts in Hk. apply elem_of_union in Hk as [Hk|Hk]; apply elem_of_list_to_set in Hk.
+    - apply (Hpins eq_refl (k, BbIn)). apply elem_of_app. left. apply elem_of_list_fmap. eauto.
+    - apply (Hpins eq_refl (k, BbOut)). apply elem_of_app. right. apply elem_of_list_fmap. eauto. }
+  set (r := foldl _ (g, Done) conns).
+  assert (Hr : bb_rel (c_g C) r.1 io ∧ (r.2 = Done ∨ r.2 = Fail ValueError)).
+  { apply (foldl_inv (λ st : circuit * outcome, bb_rel (c_g C) st.1 io ∧ (st.2 = Done ∨ st.2 = Fail ValueError))); [split; [done|by left]|].
+    intros [g0 o0] kv [Hg0 Ho0]. simpl in *. destruct o0; [|done]. by apply conns_step. }
+  destruct r as [gr o]. simpl in *. destruct Hr as [Hrel' [-> | ->]]; simpl; [done|]. intros [= <-]. split; [done|].
+  rewrite (bb_rel_remove_eq _ _ _ Hrel'). by destruct C.
+Qed.
